@@ -36,9 +36,10 @@ fn explore(api: &Api, setting_ix: usize, seed: u64, cx: &mut Cx) {
         // fake record
         let (ke1f, _clf) = api.login_start(&mut t, &p.pw).map_err(er("login_start"))?;
         let (_ke2f, slf) = api.slogin_start(&mut t, &Blob::n(&setup), None, &Blob::n(&ke1f), b"nobody", o(&p.ctx), o(&p.idu), o(&p.ids)).map_err(er("slogin_start"))?;
-        Ok((matched, again, bob_login, pw2_login, s2_login, slw, slf))
+        let spk = api.setup_pk(&Blob::n(&setup)).map_err(er("setup_pk"))?;
+        Ok((matched, again, bob_login, pw2_login, s2_login, slw, slf, reg.file.clone(), spk))
     })();
-    let (matched, again, bob_login, pw2_login, s2_login, slw, slf) = match w {
+    let (matched, again, bob_login, pw2_login, s2_login, slw, slf, reg_file, spk) = match w {
         Ok(w) => w,
         Err(e) => {
             cx.violate_case(&format!("honest-step/{}", e.step), format!("honest step {} failed: {:?}", e.step, e.e), json!({}));
@@ -75,6 +76,25 @@ fn explore(api: &Api, setting_ix: usize, seed: u64, cx: &mut Cx) {
     // values a confused implementation might compare against
     cands.push(("session-key".into(), matched.sk_server.clone()));
     cands.push(("server-mac".into(), matched.ke2[matched.ke2.len() - nh..].to_vec()));
+    // finalizations an OUTSIDER could compute from the public transcript alone if the key schedule did not depend on
+    // the Diffie-Hellman secrets (all-zero or empty shared secrets)
+    {
+        let sp = api.spec;
+        let lay = sp.layout(crate::refmodel::Kind::CredResp);
+        let ke2 = &matched.ke2;
+        let cred_resp_len = lay[0].len + lay[1].len + lay[2].len;
+        let cpk = sp.field(crate::refmodel::Kind::File, "client_pk").of(&reg_file).to_vec();
+        let spk_b = spk.clone();
+        let idc = p.idu.clone().unwrap_or(cpk);
+        let idsv = p.ids.clone().unwrap_or(spk_b);
+        let pre = sp.preamble(&p.ctx.clone().unwrap_or_default(), &idc, &matched.ke1, &idsv, &ke2[..cred_resp_len], lay[3].of(ke2), lay[4].of(ke2));
+        let server_mac = lay[5].of(ke2);
+        for (nm, ikm) in [("zero-dh", vec![0u8; 3 * sp.npk()]), ("empty-dh", vec![])] {
+            let (_, km3, _, _) = sp.derive_keys(&ikm, &pre);
+            let th2 = sp.h().hash(&[&pre, server_mac]);
+            cands.push((format!("outsider/{}", nm), crate::refmodel::hmac(sp.h(), &km3, &[&th2])));
+        }
+    }
     for k in 0..4 {
         let mut r = vec![0u8; nh];
         Tape::seeded(seed, &format!("c03/rand/{}", k)).fill_bytes(&mut r);
